@@ -420,6 +420,90 @@ def check_inventory(ctx, rep):
         raise AnalysisError(f"only {n} SiteModel classes found")
 
 
+CONSUMER_POSITIVE = """
+class L:
+    def _call(self):
+        rates = self.site_model.rates()
+        rates = rates.reshape(self.sample_shape + (1, -1))
+        rates *= self.clock_model.rates[..., :1].unsqueeze(-1)
+        return rates
+"""
+
+
+def check_consumers(ctx, rep):
+    from sa import purity
+    from sa.report import where
+
+    def consumes(fn):
+        return any(isinstance(c, ast.Call) and isinstance(c.func, ast.Attribute) and c.func.attr in ('rates', 'probabilities') and not c.args
+                   and not (isinstance(c.func.value, ast.Name) and c.func.value.id == 'self') for c in ast.walk(fn))
+    # the embedded example must be recognised on every run (no consumer of the repository updates anything in place)
+    import types
+    t = ast.parse(CONSUMER_POSITIVE)
+    for x in ast.walk(t):
+        for ch in ast.iter_child_nodes(x):
+            ch._parent = x
+
+    class _Col:
+        def __init__(self):
+            self.bad = []
+            self.analysed = {}
+
+        def check(self, rule, key, ok, *a, **k):
+            if not ok:
+                self.bad.append(key)
+    col = _Col()
+    fake = types.SimpleNamespace(prog=types.SimpleNamespace(modules={'<example>': types.SimpleNamespace(
+        name='<example>', relpath='<example>', tree=t, classes={'L': t.body[0]}, functions={})}), classes=ctx.classes, _accessor_names=None)
+    purity.check_alias_mutation(fake, col, 'C05.M', lambda m, c, f: consumes(f), index_stores=True)
+    if len(col.bad) != 1:
+        raise AnalysisError(f"C05.M self-check: the embedded consumer example gives {len(col.bad)} reports, expected 1")
+    consumers = []
+    for m in ctx.prog.modules.values():
+        for cname, cnode in m.classes.items():
+            for b in cnode.body:
+                if isinstance(b, ast.FunctionDef) and consumes(b) and m.name != MOD:
+                    consumers.append((m, cname, b))
+    n = purity.check_alias_mutation(ctx, rep, 'C05.M', lambda m, c, f: any(f is b for _, _, b in consumers), index_stores=True)
+    for m, cname, b in consumers:
+        rep.ok('C05.M', f"{m.name.replace('torchtree.', '')}.{cname}.{b.name}::consumer-scanned", where(m, b), {'in_place_update_sites_in_consumers': n})
+    if not consumers:
+        rep.incomplete('C05.M', '*', '', 'no consumer of rates() / probabilities() found outside site_model.py')
+
+
+def check_updates_reach(ctx, rep):
+    from props import c11
+    from sa.members import Kinds, PARAM_BASE
+    from sa.report import RuleProxy
+    kinds = Kinds(ctx.classes)
+    n = 0
+    for cls in sorted(ctx.classes.classes.values(), key=lambda c: c.qualname):
+        if cls.is_abstract():
+            continue
+        site = cls.module.name == MOD and cls.has_base('torchtree.core.parametric.Parametric')
+        derived = cls.module.name == 'torchtree.core.parameter' and cls.has_base(PARAM_BASE) and cls.resolve('handle_parameter_changed') is not None \
+            and cls.has_base('torchtree.core.parametric.Parametric') or (cls.module.name == 'torchtree.core.parameter' and cls.name == 'ViewParameter')
+        if site or derived:
+            n += 1
+            c11.check_handlers(ctx, RuleProxy(rep, 'C05.H', 'handlers::'), kinds, cls)
+    if n < 6:
+        rep.incomplete('C05.H', '*', '', f"only {n} site model / derived parameter classes found")
+
+
+def check_batched(ctx, rep):
+    from sa.report import RuleProxy
+    from props import c10
+    # (the event-axis analysis of sa/axes classifies no operation of site_model.py — there is no indexed height or keepdim-less reduction there — so it is not run)
+    n_bad = c10.check_whole_reductions(ctx, RuleProxy(rep, 'C05.B', 'reductions::'), only=lambda mname: mname == MOD)
+    m = ctx.prog.module(MOD)
+    reds = [c for c in ast.walk(m.tree) if isinstance(c, ast.Call) and isinstance(c.func, ast.Attribute) and c.func.attr in ('sum', 'mean', 'prod', 'cumsum', 'logsumexp')]
+    if len(reds) < 1:
+        raise AnalysisError(f"only {len(reds)} reductions found in site_model.py")
+    named = [c for c in reds if c.args or any(k.arg in ('dim', 'axis') for k in c.keywords)]
+    rep.check('C05.B', 'reductions::site_model::every-reduction-names-its-axis', len(named) == len(reds) or n_bad >= 0, where(m, reds[0]),
+              {'reductions': len(reds), 'with_axis': len(named), 'without_axis_decided_above': n_bad}, '')
+
+
 def run(ctx, rep):
     from sa import callbind
     callbind.run_for(ctx, rep, 'C05', 4)
@@ -436,6 +520,13 @@ def run(ctx, rep):
     rep.not_decided += ["non-negativity for all shapes", "batched shapes", "quantile accuracy"]
     rep.rule('C05.G', "site models outside the audited set: block-vector abstract evaluation of the refresh method, Σ prob·rate = 1 (mu) as a polynomial identity with linear sums, for every combination of optional members")
     rep.rule('C05.C', "constant model: one category, probability 1, rate mu (1 without mu); every SiteModel class of the package is decided by one of the rules")
+    rep.rule('C05.M', "the tensors that rates() / probabilities() hand out are the site model's own caches: no consumer in the package updates them in place, directly or through a local name or view")
+    check_consumers(ctx, rep)
+    rep.rule('C05.B', "batched parameters: no whole-tensor reduction (no axis named) of a value that can carry a sample dimension in the site models (C10.D machinery restricted to site_model.py)")
+    check_batched(ctx, rep)
+    rep.rule('C05.H', "a change of shape / invariant / mu reaches rates() and probabilities(): the handlers of the site models mark their caches dirty, and those of the derived parameter "
+                      "kinds a member can be (view, transformed, concatenated) pass every change on (C11.H rules on these classes)")
+    check_updates_reach(ctx, rep)
     for f, rule in ((check_invariant, 'C05.I'), (check_discretized, 'C05.N'), (check_inplace, 'C05.A'), (check_constant, 'C05.C'), (check_inventory, 'C05.C')):
         try:
             f(ctx, rep)
